@@ -16,11 +16,7 @@
 #include <string.h>
 #include <unistd.h>
 #include <time.h>
-/* internal.h (hooked build) already defines struct dispatch_verif_site_s; the runtime header
- * declares the same layout: give its copy another tag in this translation unit */
-#define dispatch_verif_site_s vrt_site_s
 #include "verif_rt.h"
-#undef dispatch_verif_site_s
 
 /* ---- the four ways a C client reaches the implementation ------------------------------ */
 /* with the public header on x86-64 `dispatch_once` / `dispatch_once_f` are macros for the
@@ -165,7 +161,7 @@ static void *worker(void *arg)
 
 /* Steering (consulted before a traced access, outside the log lock): widen the two windows the
  * property names.  All waits are bounded, so steering can delay but never block an execution. */
-static void steer(struct vrt_site_s *s, const volatile void *addr, int obj)
+static void steer(struct dispatch_verif_site_s *s, const volatile void *addr, int obj)
 {
 	(void)addr;
 	if (obj < 0) return;
@@ -175,7 +171,15 @@ static void steer(struct vrt_site_s *s, const volatile void *addr, int obj)
 	if (g_mode == 1) {
 		/* hold the owner just before it publishes DONE until a waiter is at its waiters-bit
 		 * RMW: the broadcast then races with that waiter's futex_wait */
-		for (int i = 0; i < 300 && atomic_load(&g_wcas_seen) == 0; i++) usleep(10);
+		struct timespec t0, t1;
+		clock_gettime(CLOCK_MONOTONIC, &t0);
+		for (unsigned i = 0; atomic_load(&g_wcas_seen) == 0; i++) {
+			if ((i & 63) == 63) {
+				clock_gettime(CLOCK_MONOTONIC, &t1);
+				if ((t1.tv_sec - t0.tv_sec) * 1000000000l + (t1.tv_nsec - t0.tv_nsec) > 3000000l) break;
+				sched_yield();
+			}
+		}
 	} else if (g_mode == 2) {
 		/* the initialiser has ended, DONE is not yet published: let late callers arrive here */
 		usleep(100 + (unsigned)(vrt_rand() % 600));
